@@ -32,9 +32,16 @@ Counter p_vector_overload("probe.parse_through_vector_overload");
 
 const char* const NAMES[7] = { "a", "b", "ab", "x", "long-name", "", "long_name" }; // index 5: a "short-only" option
 const char* const LETTERS[7] = { "a", "b", "x", "", "ab", "A", "1" };
+// (arguments from 700 up: a letter whose byte is above 127; older replay files keep their meaning)
+inline const char* letter_of(int arg)
+{
+    return arg >= 700 ? "\xe4" : LETTERS[arg % 7];
+}
 const char* const GROUPS[3] = { nullptr, "g1", "arguments" }; // the second named group is titled like the default group
 const char* const ENVS[3] = { "NITRO_SIM_E0", "NITRO_SIM_E1", "NITRO_SIM_E2" };
 const char* const VALUES[6] = { "v1", "2.5", "7", "x=y", "two words", "" };
+// what an environment variable is set to: the values above and the words a bound toggle understands
+const char* const ENVVALUES[10] = { "v1", "2.5", "7", "x=y", "two words", "", "yes", "off", "1", "No" };
 
 enum Kind
 {
@@ -199,7 +206,7 @@ DeclResult apply_declare(no::parser& p, const Op& op, GroupCache* cache = nullpt
             switch (mod)
             {
             case M_SHORT:
-                o.short_name(LETTERS[arg % 7]);
+                o.short_name(letter_of(arg));
                 break;
             case M_ENV:
                 o.env(ENVS[arg % 3]);
@@ -510,7 +517,7 @@ struct Exec
             bool mod_must_throw = false, mod_may_throw = false;
             if (mod == M_SHORT)
             {
-                std::string l = LETTERS[arg % 7];
+                std::string l = letter_of(arg);
                 mod_must_throw = l.size() != 1 || (!mo.letter.empty() && mo.letter != l);
                 if (!mod_must_throw)
                     mo.letter = l;
@@ -576,7 +583,7 @@ struct Exec
             break;
         }
         case K_ENVSET:
-            setenv(ENVS[op.a[0] % 3], VALUES[op.a[1] % 6], 1);
+            setenv(ENVS[op.a[0] % 3], ENVVALUES[op.a[1] % 10], 1);
             f_env++;
             env_changed = true;
             break;
@@ -956,9 +963,9 @@ public:
             if (mod == M_SHORT)
             {
                 // mostly legal letters, sometimes "" / "ab", sometimes a clash
-                static const int legal[] = { 0, 1, 2, 5, 6 };
-                int l = rng.chance(1, c13 ? 4 : 10) ? 3 + static_cast<int>(rng.below(2)) : legal[rng.below(5)];
-                arg = l + 7 * static_cast<int>(rng.below(8));
+                static const int legal[] = { 0, 1, 2, 5, 6, 7 };
+                int l = rng.chance(1, c13 ? 4 : 10) ? 3 + static_cast<int>(rng.below(2)) : legal[rng.below(6)];
+                arg = l == 7 ? 700 + static_cast<int>(rng.below(8)) : l + 7 * static_cast<int>(rng.below(8));
             }
             op.a[4] = arg;
             // mirror (assuming the documented semantics)
@@ -977,7 +984,7 @@ public:
                 MOption& mo = m.opts[static_cast<size_t>(idx)];
                 if (mod == M_SHORT)
                 {
-                    std::string l = LETTERS[arg % 7];
+                    std::string l = letter_of(arg);
                     if (l.size() == 1 && (mo.letter.empty() || mo.letter == l))
                         mo.letter = l;
                 }
@@ -1147,7 +1154,7 @@ public:
                 Op op;
                 op.kind = rng.chance(2, 3) ? K_ENVSET : K_ENVUNSET;
                 op.a[0] = static_cast<int64_t>(rng.below(3));
-                op.a[1] = static_cast<int64_t>(rng.below(6));
+                op.a[1] = static_cast<int64_t>(rng.chance(1, 2) ? rng.below(6) : 6 + rng.below(4));
                 p.ops.push_back(op);
             }
             else if (c13 && r < 75)
